@@ -10,6 +10,7 @@ import (
 	"sync/atomic"
 
 	"github.com/kardiachain/go-kardia/consensus"
+	kos "github.com/kardiachain/go-kardia/lib/os"
 
 	"verif/mc/par"
 )
@@ -49,17 +50,54 @@ func newDir() string {
 
 var dirPool = sync.Pool{New: func() interface{} { return newDir() }}
 
-// checkRepair writes C to a file, runs the real repairWalFile and compares the output with the
-// longest valid prefix: the first k written records, byte-exact, where k is the number of wholly
-// intact leading records (for a pure truncation k may be larger when the decoder legitimately
-// completed a record whose missing tail was all zero bytes; nothing but written records is accepted).
-func checkRepair(lc *logCase, C []byte, ci *corrInfo, dir string, out sink) (kept int) {
-	src, dst := filepath.Join(dir, "wal.CORRUPTED"), filepath.Join(dir, "wal")
-	if err := os.WriteFile(src, C, 0o600); err != nil {
-		out("harness", err.Error())
-		return -1
+// Repair modes. "fresh": destination does not exist. "in-place": exactly what ConsensusState.OnStart
+// does — the corrupted log IS <dir>/wal, it is copied to <dir>/wal.CORRUPTED with the repository's
+// kos.CopyFile and repaired back over the existing (longer) <dir>/wal. "over-existing": the destination
+// pre-exists with unrelated, longer content.
+var repairModes = []string{"fresh", "in-place", "over-existing"}
+
+func repairOracle(mode string) string {
+	switch mode {
+	case "in-place":
+		return "repair-in-place-longest-valid-prefix"
+	case "over-existing":
+		return "repair-over-existing-longest-valid-prefix"
 	}
-	os.Remove(dst)
+	return "repair-longest-valid-prefix"
+}
+
+// checkRepair runs the real repairWalFile on the corrupted bytes C and compares the resulting WAL file
+// with the longest valid prefix: the first k written records, byte-exact, where k is the number of
+// wholly intact leading records (for a pure truncation k may be larger when the decoder legitimately
+// completed a record whose missing tail was all zero bytes; nothing but written records is accepted).
+// The resulting file must also decode to exactly those k messages followed by end-of-log.
+func checkRepair(lc *logCase, C []byte, ci *corrInfo, mode, dir string, out sink) (kept int) {
+	src, dst := filepath.Join(dir, "wal.CORRUPTED"), filepath.Join(dir, "wal")
+	oracle := repairOracle(mode)
+	switch mode {
+	case "in-place":
+		os.Remove(src)
+		if err := os.WriteFile(dst, C, 0o600); err != nil {
+			out("harness", err.Error())
+			return -1
+		}
+		if err := kos.CopyFile(dst, src); err != nil {
+			out("harness", "CopyFile: "+err.Error())
+			return -1
+		}
+	default:
+		if err := os.WriteFile(src, C, 0o600); err != nil {
+			out("harness", err.Error())
+			return -1
+		}
+		os.Remove(dst)
+		if mode == "over-existing" {
+			if err := os.WriteFile(dst, bytes.Repeat([]byte{0x5a, 0xc3, 0x00, 0x7e}, (len(C)+len(lc.W))/4+24), 0o600); err != nil {
+				out("harness", err.Error())
+				return -1
+			}
+		}
+	}
 	var err error
 	var perr interface{}
 	func() {
@@ -93,7 +131,9 @@ func checkRepair(lc *logCase, C []byte, ci *corrInfo, dir string, out sink) (kep
 		}
 	}
 	if kept < 0 || !bytes.Equal(got, lc.W[:lc.off[kept]]) {
-		out("repair-longest-valid-prefix", fmt.Sprintf("not a prefix: repaired file (%d bytes) is not a whole-record prefix of the written log (boundaries %v)", len(got), lc.off))
+		nmsg, ec := decodeCount(got)
+		out(oracle, fmt.Sprintf("not a prefix: the repaired WAL (%d bytes; source %d bytes) is not a whole-record prefix of the written log (boundaries %v); reading it gives %d messages then %s",
+			len(got), len(C), lc.off, nmsg, ec))
 		return -1
 	}
 	hi := ci.kStrict
@@ -101,11 +141,43 @@ func checkRepair(lc *logCase, C []byte, ci *corrInfo, dir string, out sink) (kep
 		hi = lc.n()
 	}
 	if kept < ci.kStrict {
-		out("repair-longest-valid-prefix", fmt.Sprintf("lost a valid record: %d leading records are intact, the repaired file keeps %d", ci.kStrict, kept))
+		out(oracle, fmt.Sprintf("lost a valid record: %d leading records are intact, the repaired file keeps %d", ci.kStrict, kept))
 	} else if kept > hi {
-		out("repair-longest-valid-prefix", fmt.Sprintf("kept a damaged record: record #%d was damaged, the repaired file keeps %d records", ci.kStrict, kept))
+		out(oracle, fmt.Sprintf("kept a damaged record: record #%d was damaged, the repaired file keeps %d records", ci.kStrict, kept))
 	}
+	// the repaired WAL must read back cleanly: exactly the kept messages, then end-of-log
+	sub := &logCase{recs: lc.recs[:kept], W: got, off: lc.off[:kept+1], name: lc.name, shape: lc.shape}
+	cci := corrInfo{class: "clean", rec: kept, kStrict: kept, clean: true}
+	checkStream(sub, bytes.NewReader(got), len(got), &cci, func(o, what string) {
+		out(oracle, "the repaired WAL does not read back cleanly ("+o+"): "+what)
+	})
 	return kept
+}
+
+// decodeCount reads bytes through the real decoder: messages before the first error and its class.
+func decodeCount(b []byte) (n int, ec string) {
+	defer func() {
+		if p := recover(); p != nil {
+			ec = "panic"
+		}
+	}()
+	dec := consensus.NewWALDecoder(bytes.NewReader(b))
+	for {
+		_, err := dec.Decode()
+		if err != nil {
+			switch classify(err) {
+			case ecEOF:
+				return n, "end-of-log"
+			case ecCorrupt:
+				return n, "a corruption error"
+			}
+			return n, "error " + err.Error()
+		}
+		n++
+		if n > len(b) {
+			return n, "no end"
+		}
+	}
 }
 
 // repairLog runs the corruptions of one log through repairWalFile. full=false keeps one bit flip per byte.
@@ -113,10 +185,11 @@ func repairLog(lc *logCase, full bool, dir string) {
 	var cur corr
 	var ci corrInfo
 	nviol := 0
+	mode := "fresh"
 	out := func(oracle, what string) {
 		nviol++
 		cc := cur
-		reportViolation(sig(ci.class, oracle, "repair"), lc.name+": "+cur.String()+": "+what, caseSpec{Phase: "repair", Tokens: lc.toks, TokenNames: lc.name, Corr: &cc})
+		reportViolation(sig(ci.class, oracle, "repair"), lc.name+": "+cur.String()+" ("+mode+" repair): "+what, caseSpec{Phase: "repair", Tokens: lc.toks, TokenNames: lc.name, Corr: &cc, Mode: mode})
 	}
 	var evals int64
 	local := map[dkey]struct{}{}
@@ -126,9 +199,13 @@ func repairLog(lc *logCase, full bool, dir string) {
 			return
 		}
 		cur, ci = c, info
-		k := checkRepair(lc, C, &ci, dir, out)
-		evals++
-		local[dkey{ci.class, ci.rec, k, 'R'}] = struct{}{}
+		for mi, m := range repairModes {
+			mode = m
+			k := checkRepair(lc, C, &ci, m, dir, out)
+			evals++
+			local[dkey{ci.class, ci.rec, k, byte('R' + mi)}] = struct{}{}
+		}
+		mode = "fresh"
 	}
 	run(corr{Kind: "clean"})
 	if nviol > 0 {
@@ -152,14 +229,14 @@ func repairLog(lc *logCase, full bool, dir string) {
 	r.Add("evaluations", evals)
 	r.Add("evaluations_repair", evals)
 	for k := range local {
-		r.Distinct("distinct_nontrivial", fmt.Sprintf("%s|%s|r%d|kept%d", lc.shape, k.class, k.rec, k.j))
-		r.Distinct("repair_distinct_outcomes", fmt.Sprintf("%s|r%d|kept%d", k.class, k.rec, k.j))
+		r.Distinct("distinct_nontrivial", fmt.Sprintf("%s|%s|r%d|kept%d|%s", lc.shape, k.class, k.rec, k.j, repairModes[k.ec-'R']))
+		r.Distinct("repair_distinct_outcomes", fmt.Sprintf("%s|r%d|kept%d|%s", k.class, k.rec, k.j, repairModes[k.ec-'R']))
 	}
 	if lc.n() == 2 && lc.toks[0] == 8 && wantSample("repair", 1) {
 		c := corr{Kind: "len", Rec: 1, Name: "len+1"}
 		C, info := c.apply(lc)
-		k := checkRepair(lc, C, &info, dir, func(string, string) {})
-		r.Sample(map[string]interface{}{"log": lc.name, "corruption": c.String(), "via": "repairWalFile", "records_kept": k, "bytes_kept": lc.off[clampK(k, lc.n())]})
+		k := checkRepair(lc, C, &info, "in-place", dir, func(string, string) {})
+		r.Sample(map[string]interface{}{"log": lc.name, "corruption": c.String(), "via": "repairWalFile in place (wal -> wal.CORRUPTED -> wal, as OnStart)", "corrupted_bytes": len(C), "records_kept": k, "bytes_kept": lc.off[clampK(k, lc.n())]})
 	}
 }
 
